@@ -325,6 +325,12 @@ theorem gen_get_peak_heights_eq_model (n : Nat) (h : n < 2^64) :
     Loops.get_peak_heights n = get_peak_heights n := TF.GenBridge.gen_peak_heights_eq n h
 example : (11 : Nat) < 2^64 ∧ Loops.get_peak_heights 11 = [3, 1, 0] := by decide +kernel
 
+/-- the regenerated `get_peak_heights_ok` (no shift amount out of range in the `for` loop: debug build = release build)
+    holds for every `u64` -/
+theorem gen_get_peak_heights_ok (n : Nat) (h : n < 2^64) : Loops.get_peak_heights_ok n = true :=
+  TF.GenBridge.gen_peak_heights_ok n h
+example : (18446744073709551615 : Nat) < 2^64 := by decide
+
 /-- regenerated `get_peak_heights_and_peak_node_indices` (two nested `while` loops with `continue 'outer`) = hand
     model, every leaf count below `2^63` -/
 theorem gen_get_peak_heights_and_peak_node_indices_eq_model (n : Nat) (h : n < 2^63) :
